@@ -9,7 +9,7 @@ import time
 import traceback
 
 
-class RunTimeout(Exception):
+class RunTimeout(BaseException):
     pass
 
 
